@@ -261,6 +261,8 @@ func runC13(r *Report, tier string) {
 					bad = "the label is returned unchanged on a path that is not the string arm"
 				}
 			case v.Op == "iface" && v.S == "int64":
+			case v.Op == "iface" && v.S == "string" && v.Args[0].String() == "res<0>(typeassert<string,ok>($0))" && p.has(Fact{&Term{Op: "res", S: "1", Args: []*Term{{Op: "typeassert", S: "string,ok", Args: []*Term{T("param", "0")}}}}, true}):
+				// the string arm returning the asserted value re-wrapped: the same string
 			default:
 				bad = "an accepting path returns " + v.String() + ", neither an int64 nor the string itself"
 			}
